@@ -346,6 +346,10 @@ func ssoBuild(p ssoP) (*world.World, *http.Request, *ssoTruth) {
 		o.Destination = adv + "/"
 	case "slo-endpoint":
 		o.Destination = cfg.SLOLocation(host)
+	case "pct-slash", "upper-host", "default-port", "padded", "userinfo", "dot-segment", "pct-letter":
+		// another SPELLING of the advertised location: not the advertised string
+		o.Destination = destSpelling(adv, p.Dest)
+		t.DestAdvertised = o.Destination == adv
 	case "other-host":
 		// the SSO location the IdP advertises to clients of ANOTHER host name (equal to ours unless the issuer is host-derived)
 		o.Destination = cfg.SSOLocation(ssoOtherHost)
@@ -772,6 +776,44 @@ func lexStyle(st *xt.Style, lex string) {
 	default:
 		panic("lexStyle: " + lex)
 	}
+}
+
+// destSpelling writes a location another way (equivalent under some URL comparison or other, or not even that).
+func destSpelling(adv, kind string) string {
+	i := strings.Index(adv, "://")
+	if i < 0 {
+		return adv + "?"
+	}
+	scheme, rest := adv[:i+3], adv[i+3:]
+	slash := strings.Index(rest, "/")
+	hostport, path := rest, ""
+	if slash >= 0 {
+		hostport, path = rest[:slash], rest[slash:]
+	}
+	switch kind {
+	case "pct-slash":
+		if j := strings.LastIndex(path, "/"); j >= 0 {
+			return scheme + hostport + path[:j] + "%2F" + path[j+1:]
+		}
+	case "pct-letter":
+		if len(path) > 1 {
+			return scheme + hostport + path[:len(path)-1] + fmt.Sprintf("%%%02X", path[len(path)-1])
+		}
+	case "upper-host":
+		return strings.ToUpper(scheme) + strings.ToUpper(hostport) + path
+	case "default-port":
+		if !strings.Contains(hostport, ":") {
+			return scheme + hostport + ":443" + path
+		}
+		return scheme + hostport + path + "#"
+	case "padded":
+		return " " + adv + "\n"
+	case "userinfo":
+		return scheme + "u:p@" + hostport + path
+	case "dot-segment":
+		return scheme + hostport + "/x/.." + path
+	}
+	return adv + "?"
 }
 
 // cutRootEndTag makes a document ill-formed by cutting it inside the end tag of its root element (whatever follows the root -
